@@ -33,7 +33,10 @@ type C15Case struct {
 }
 
 func sourceErr(kind int) error {
-	switch kind % 4 {
+	switch kind % 5 {
+	case 4:
+		// an error value that wraps io.EOF is still not io.EOF
+		return fmt.Errorf("connection reset while reading: %w", io.EOF)
 	case 0:
 		return errSourceBroke
 	case 1:
@@ -68,7 +71,7 @@ func drawC15(t *rapid.T) C15Case {
 		}
 		c.Members = append(c.Members, m)
 	}
-	c.ErrKind = rapid.IntRange(0, 3).Draw(t, "errkind")
+	c.ErrKind = rapid.IntRange(0, 4).Draw(t, "errkind")
 	c.FailWith = rapid.Bool().Draw(t, "failwith")
 	if rapid.Bool().Draw(t, "chunked") {
 		k := rapid.IntRange(1, 4).Draw(t, "nch")
